@@ -130,7 +130,8 @@ class Check:
         coq_makefile()
         cmd = ["make", "-j", str(NPROC)] + list(targets)
         self.checker_cmds.append("cd coq && " + " ".join(cmd))
-        rc, out = sh(cmd, cwd=COQ, timeout=timeout)
+        # one build at a time in coq/ (several checks may run concurrently)
+        rc, out = sh(["flock", os.path.join(COQ, ".buildlock")] + cmd, cwd=COQ, timeout=timeout)
         return rc == 0, out
 
     def coq_props(self, propfile, theorems=None, timeout=900):
@@ -358,12 +359,20 @@ def forbidden_axioms(out):
 
 
 def load_known_findings():
+    out = []
     p = os.path.join(VERIF, "known_findings.json")
     try:
         with open(p) as f:
-            return json.load(f)["findings"]
+            out += json.load(f)["findings"]
     except FileNotFoundError:
-        return []
+        pass
+    d = os.path.join(VERIF, "known_findings.d")
+    if os.path.isdir(d):
+        for fn in sorted(os.listdir(d)):
+            if fn.endswith(".json"):
+                with open(os.path.join(d, fn)) as f:
+                    out += json.load(f)["findings"]
+    return out
 
 
 def match_known(kf, pid, signature):
